@@ -272,7 +272,7 @@ let handle () =
      | Some f ->
        let rec eqb a b = match a, b with O, O -> true | S x, S y -> eqb x y | _, _ -> false in
        String.concat " ; " (List.map (fun (a, (lo, hi)) -> Printf.sprintf "%d %d %s" (int_of_nat a) (int_of_z lo) (match hi with None -> "inf" | Some h -> string_of_int (int_of_z h))) (entries eqb f)))
-  | "ftr" ->
+  | ("ftr" | "ftri") as cmd ->
     (* ftr <nrules> { <part I|A|D|F> <head n a trail | d k a.. | c k a.. | x> <nbody> { <sgn> <at a lead trail | in a | kI | kF> } } :
        Model/FutTransform.transform_program (atoms are numbered in the order of sorted(future_predicates)) *)
     let sg () = match next () with "p" -> FPos | "n" -> FNeg | "m" -> FNegNeg | s -> failwith ("sgn " ^ s) in
@@ -281,8 +281,13 @@ let handle () =
     let hd () = match next () with
       | "n" -> let a = nat () in let t = nat () in FNorm (a, t) | "d" -> FDisj (list nat) | "c" -> FChoice (list nat) | "x" -> FCons | "t" -> FTelHead | s -> failwith ("head " ^ s) in
     let pt () = match next () with "I" -> FInitial | "A" -> FAlways | "D" -> FDynamic | "F" -> FFinal | s -> failwith ("part " ^ s) in
-    let rules = list (fun () -> let p = pt () in let h = hd () in let b = list (fun () -> let s = sg () in let a = batom () in (s, a)) in { fp = p; fh = h; fb = b }) in
     let rec leb a b = match a, b with O, _ -> true | S _, O -> false | S x, S y -> leb x y in
+    let body () = list (fun () -> let s = sg () in let a = batom () in (s, a)) in
+    (* ftri <ninputs> { <nitems> { P <name> | R <head> <nbody> {..} } } : Model/Inputs.transform_inputs (directives resolved by the regenerated visit_Program) *)
+    let result =
+      if cmd = "ftr" then transform_program leb (list (fun () -> let p = pt () in let h = hd () in let b = body () in { fp = p; fh = h; fb = b }))
+      else transform_inputs leb (list (fun () -> list (fun () -> match next () with
+             | "P" -> SProg (coq_string (next ())) | "R" -> let h = hd () in let b = body () in SRule (h, b) | s -> failwith ("item " ^ s)))) in
     let i n = string_of_int (int_of_nat n) in
     let tm = function QRel z -> Printf.sprintf "t%+d" (int_of_z z) | QZero -> "0" in
     let pa = function QU (a, t) -> "U" ^ i a ^ "@" ^ tm t | QFut (a, n, t) -> "X" ^ i a ^ "." ^ i n ^ "@" ^ tm t | QI -> "I" | QF -> "F" | QFU -> "FU" | QTel -> "T" in
@@ -291,7 +296,7 @@ let handle () =
     let rt = function ORInitial -> "initial" | ORAlways -> "always" | ORDynamic -> "dynamic" in
     let rule r = (match r.qh with QHAtom p -> "n " ^ pa p | QHDisj l -> "d " ^ ids l | QHChoice l -> "c " ^ ids l | QHCons -> "x" | QHAux k -> "n A" ^ i k) ^ " | " ^
                  String.concat " " (List.map (fun (s, a) -> sgs s ^ pa a) r.qb) in
-    (match transform_program leb rules with
+    (match result with
      | None -> "rejected"
      | Some o ->
        String.concat " ;; " (List.map (fun (r, p) -> rt r ^ " | " ^ rule p) o.o_main) ^ " ## " ^
